@@ -53,11 +53,11 @@ type T struct {
 	MaxLen *int `json:"max_len,omitempty"`
 
 	// int / float
-	Width    string   `json:"width,omitempty"` // int8..int64, uint8..uint64, float32, float64
-	Min      *float64 `json:"min,omitempty"`
-	Max      *float64 `json:"max,omitempty"`
-	ExclMin  bool     `json:"excl_min,omitempty"`
-	ExclMax  bool     `json:"excl_max,omitempty"`
+	Width   string   `json:"width,omitempty"` // int8..int64, uint8..uint64, float32, float64
+	Min     *float64 `json:"min,omitempty"`
+	Max     *float64 `json:"max,omitempty"`
+	ExclMin bool     `json:"excl_min,omitempty"`
+	ExclMax bool     `json:"excl_max,omitempty"`
 
 	// constant (bool, int, float, string) and default (JSON values)
 	Const   *json.RawMessage `json:"const,omitempty"`
@@ -248,6 +248,14 @@ func Supports(f Format, t T) bool {
 	case KBool:
 		if t.Const != nil && f == OpenAPI {
 			return false
+		}
+	case KArray:
+		if t.Default != nil && string(*t.Default) == "[]" && f == CUE {
+			return false // every open CUE list already defaults to []: not a declaration
+		}
+	case KRef:
+		if t.Default != nil && f != CUE {
+			return false // siblings of $ref are ignored
 		}
 	}
 	if t.Nullable && f == OpenAPI {
